@@ -22,10 +22,13 @@ SERVICE_RND = T(
      dict(n=40, len=30, procs=6, cfg="users=3,init=25,taxnum=1,taxden=2,slashnum=1,slashden=1,minmult=1,mindep=0,wait=3")])
 SERVICE_GEN = T([dict(cfg="GEN_Service.cfg", num=10, depth=20, seeds=8)],
                 [dict(cfg="GEN_Service.cfg", num=50, depth=26, seeds=14)])
-SERVICE_SCN = [dict(file="scenarios/service_F4.ndjson", cfg=SERVICE_SCN_CFG),
+SERVICE_SCN = [dict(file="scenarios/service_cover.ndjson", cfg=SERVICE_SCN_CFG),   # every required antecedent
+               dict(file="scenarios/service_F4.ndjson", cfg=SERVICE_SCN_CFG),
                dict(file="scenarios/service_F21.ndjson", cfg=SERVICE_SCN_CFG),
                dict(file="scenarios/service_F20.ndjson", cfg=SERVICE_SCN_CFG)]
-SERVICE_MC = T([dict(cfg="MC_Service.cfg", timeout=1500)], [dict(cfg="MC_Service_big.cfg", timeout=3400)])
+# MC_Service_D: a provider priced in a denom that needs an exchange rate (finding F20), 5 heights
+SERVICE_MC = T([dict(cfg="MC_Service.cfg", timeout=1500), dict(cfg="MC_Service_D.cfg", timeout=900)],
+               [dict(cfg="MC_Service_big.cfg", timeout=3400), dict(cfg="MC_Service_D.cfg", timeout=900)])
 
 _ASSUME = ["TLC 1.8, SANY, CommunityModules Json", "Go toolchain, cosmos-sdk x/bank",
            "harness projection functions (raw prefix scans with the exported key constructors)",
